@@ -29,6 +29,7 @@ fn base_case(prop: &str, seed: u64) -> (Case, Rng) {
         http_arm: false,
         defer_writes: false,
         disk_fault_rate: 0.0,
+        journal_fault_rate: 0.0,
     };
     draw_sim_part(&mut rng, &mut case);
     // the HTTP arm: a share of the runs of the properties that are stated for both transports
@@ -50,6 +51,11 @@ fn base_case(prop: &str, seed: u64) -> (Case, Rng) {
         case.disk_fault_rate = *faults.pick(&[0.02, 0.05, 0.15]);
         case.knobs.dedup = false;
         case.knobs.no_wait = false;
+        case.http_arm = false;
+    }
+    // the journal-fault arm of C06: "a failed command changes nothing" also when it fails at the journal
+    if prop == "C06" && faults.chance(0.1) {
+        case.journal_fault_rate = *faults.pick(&[0.03, 0.1]);
         case.http_arm = false;
     }
     (case, rng)
@@ -467,6 +473,12 @@ pub fn make_case(prop: &str, seed: u64) -> Case {
             case.gen.mix = Mix { send: 10, poll: 10, tick: 2, audit: 1, ..Default::default() };
             log_setup(&mut case, &mut rng);
         }
+    }
+    if case.journal_fault_rate > 0.0 {
+        // no restarts in this arm: a start-up that reads the journal under injected errors is C11's subject
+        case.gen.mix.restart_clean = 0;
+        case.gen.mix.restart_flush_kill = 0;
+        case.gen.mix.restart_lose_index = 0;
     }
     case
 }
